@@ -1,4 +1,80 @@
-(* C08 placeholder, replaced below *)
-From RV Require Import Model.Mapping.
-Theorem C08_placeholder : True. Proof. exact I. Qed.
-Eval cbv in "ASSUMPTIONS-OF C08_placeholder"%string. Print Assumptions C08_placeholder.
+(* C08  Reference cycles are errors; acyclic references never are.  Statements only; proofs in
+   Proofs/StateFacts.v, StateIndep.v, Mono.v about the ResolveState of Model/Interp.v.
+   PARTIAL: "every cyclic chain is reported" and "rendering always comes back" in full
+   generality need a termination measure for the re-interpolation of merged layer lists, which
+   is not proved; they are covered by the cyclic / acyclic / chain streams of the check on every
+   run and by the boundary evaluations below.  Proved: when exactly the two errors are raised,
+   that the state only ever grows along one chain (and is cloned, by construction of the loops,
+   for siblings), that successful results never depend on the state, and fuel irrelevance. *)
+From RV Require Import Model.Interp Proofs.StateFacts Proofs.StateIndep Proofs.Mono.
+
+(** The depth error is raised exactly at nesting depth 64 (documented limit), whatever the
+    reference refers to ... *)
+Theorem C08_depth_limit :
+  forall f root parts st, RESOLVE_MAX_DEPTH <= depth st ->
+    token_resolve (S f) root (TRef parts) st =
+      Err (EDepth (current_key (with_depth st (S (depth st)))) (seen (with_depth st (S (depth st))))).
+Proof. exact depth_limit. Qed.
+Eval cbv in "ASSUMPTIONS-OF C08_depth_limit"%string. Print Assumptions C08_depth_limit.
+
+(** ... and the loop error exactly when the resolved path is already recorded on the chain that
+    leads to this reference; a path that is not recorded is never rejected as a loop here. *)
+Theorem C08_loop_error_iff_path_on_chain :
+  forall f root parts st path,
+    depth st < RESOLVE_MAX_DEPTH ->
+    token_slice f root parts (with_depth st (S (depth st))) = Ok path ->
+    (mem path (seen st) = true -> token_resolve (S f) root (TRef parts) st = Err (ELoop (seen st))) /\
+    (mem path (seen st) = false -> forall ps, token_resolve (S f) root (TRef parts) st <> Err (ELoop ps) \/
+         exists v0, m_get (VStr (hd "" (split_on ":" path))) root = Some v0).
+Proof. exact loop_error_iff_path_recorded. Qed.
+Eval cbv in "ASSUMPTIONS-OF C08_loop_error_iff_path_on_chain"%string. Print Assumptions C08_loop_error_iff_path_on_chain.
+
+(** Along a chain the state only grows: the depth is never decremented, recorded paths are
+    never forgotten, the parameter name is unchanged. *)
+Theorem C08_state_only_grows_along_a_chain :
+  forall f root v st v' st', interp f root v st = Ok (v', st') -> st_le st st'.
+Proof. exact interp_state_le. Qed.
+Eval cbv in "ASSUMPTIONS-OF C08_state_only_grows_along_a_chain"%string. Print Assumptions C08_state_only_grows_along_a_chain.
+
+(** The same reference used many times, diamonds, siblings: a successful result never depends on
+    the paths recorded so far or on the depth counter. *)
+Theorem C08_results_independent_of_state :
+  forall f root v sa sb ra sa' rb sb',
+    interp f root v sa = Ok (ra, sa') -> interp f root v sb = Ok (rb, sb') -> ra = rb.
+Proof. exact interp_state_independent. Qed.
+Eval cbv in "ASSUMPTIONS-OF C08_results_independent_of_state"%string. Print Assumptions C08_results_independent_of_state.
+
+Theorem C08_fuel_irrelevant :
+  forall root f f' v st r, f <= f' -> interp f root v st = r -> r <> OutOfFuel -> interp f' root v st = r.
+Proof. exact interp_fuel_mono. Qed.
+Eval cbv in "ASSUMPTIONS-OF C08_fuel_irrelevant"%string. Print Assumptions C08_fuel_irrelevant.
+
+(** Boundary evaluations on the model (kernel computations, instances -- not the general claim):
+    a chain of 63 whole-value references renders, a chain of 65 hits the depth limit; direct,
+    embedded, list, mapping-value and layer cycles are loop errors; a reference used three times
+    and a diamond are fine. *)
+Fixpoint chain (n : nat) : mapping :=
+  match n with
+  | 0 => [mk_entry (VStr "r0") (VNum (NInt 1)) false false]
+  | S n' => mk_entry (VStr ("r" ++ nat_to_string n)) (VStr ("${r" ++ nat_to_string n' ++ "}")) false false :: chain n'
+  end.
+
+Definition is_err_kind (r : res (value * rstate)) (k : nat) : bool :=
+  match r with
+  | Err (ELoop _) => Nat.eqb k 1
+  | Err (EDepth _ _) => Nat.eqb k 2
+  | Ok _ => Nat.eqb k 0
+  | _ => false
+  end.
+
+Example C08_boundaries :
+  is_err_kind (interp 400 (chain 63) (VStr "${r63}") st0) 0 = true /\
+  is_err_kind (interp 400 (chain 65) (VStr "${r65}") st0) 2 = true /\
+  is_err_kind (interp 50 [mk_entry (VStr "a") (VStr "${a}") false false] (VStr "${a}") st0) 1 = true /\
+  is_err_kind (interp 50 [mk_entry (VStr "a") (VStr "x${b}") false false; mk_entry (VStr "b") (VSeq [VStr "${a}"]) false false] (VStr "${a}") st0) 1 = true /\
+  is_err_kind (interp 50 [mk_entry (VStr "a") (VMap [mk_entry (VStr "k") (VStr "${a:k}") false false]) false false] (VStr "${a}") st0) 1 = true /\
+  is_err_kind (interp 50 [mk_entry (VStr "a") (VList [VNum (NInt 1); VStr "${a}"]) false false] (VStr "${a}") st0) 1 = true /\
+  is_err_kind (interp 50 [mk_entry (VStr "b") (VNum (NInt 1)) false false;
+                          mk_entry (VStr "l") (VStr "${b}") false false; mk_entry (VStr "r") (VStr "${b}") false false]
+                      (VSeq [VStr "${b}"; VStr "${b} ${b}"; VMap [mk_entry (VStr "x") (VStr "${l}") false false; mk_entry (VStr "y") (VStr "${r}") false false]]) st0) 0 = true.
+Proof. repeat split; vm_compute; reflexivity. Qed.
